@@ -71,6 +71,7 @@ pub struct Rule {
     /// ST_STATE with wnd > 0 whose predecessor in that direction had wnd = 0
     pub wnd_reopen: bool,
     pub min_len: Option<usize>,
+    pub max_len: Option<usize>,
     /// drop | dup | delay
     pub act: String,
     pub delay_us: u64,
@@ -475,6 +476,9 @@ impl SimNet {
                     continue;
                 }
                 if r.min_len.is_some_and(|l| data.len() < l) {
+                    continue;
+                }
+                if r.max_len.is_some_and(|l| data.len() > l) {
                     continue;
                 }
                 hit = Some(i);
